@@ -354,7 +354,7 @@ func decompressAll(b []byte) ([]byte, error) {
 		}
 		return io.ReadAll(zr)
 	case "zstd":
-		zr, err := zstd.NewReader(bytes.NewReader(b))
+		zr, err := zstd.NewReader(bytes.NewReader(b), zstd.WithDecoderConcurrency(1), zstd.WithDecoderLowmem(true))
 		if err != nil {
 			return nil, err
 		}
@@ -434,7 +434,10 @@ func openAndVerify(kind string, blob []byte, pay []byte, tocBlob []byte, tocDige
 	if !ok {
 		return actualTOC, fmt.Errorf("no root")
 	}
-	directReads := 0
+	directReads, maxDirect := 0, 4
+	if kind == "zstd" {
+		maxDirect = 1
+	}
 	var walk func(e *estargz.TOCEntry) error
 	walk = func(e *estargz.TOCEntry) error {
 		var ferr error
@@ -487,7 +490,7 @@ func openAndVerify(kind string, blob []byte, pay []byte, tocBlob []byte, tocDige
 					}
 				}
 				// a few reads through the blob offsets of the TOC (each one costs a fresh decoder)
-				if directReads < 4 {
+				if directReads < maxDirect {
 					directReads++
 					fr, err := r.OpenFile(c.Name)
 					if err != nil {
@@ -894,7 +897,7 @@ func exec(c Case) Result {
 				if sha(frame) != sum {
 					prob(i, "zstd:chunked manifest checksum annotation %q does not match the bytes at %q", sum, pos)
 				}
-				if zr, err := zstd.NewReader(bytes.NewReader(frame)); err == nil {
+				if zr, err := zstd.NewReader(bytes.NewReader(frame), zstd.WithDecoderConcurrency(1), zstd.WithDecoderLowmem(true)); err == nil {
 					js, _ := io.ReadAll(zr)
 					zr.Close()
 					if int64(len(js)) != ulen || sha(js) != actual {
